@@ -12,8 +12,7 @@ HARNESSES = [
 ]
 # repaired: the behaviour the theorems are proved for.  The others reproduce the recorded defects, one at a
 # time and all together, so that fixing one of them upstream does not turn the others into false alarms.
-VARIANTS = ["repaired", "defective", "def_auth", "def_adopt", "def_aaa",
-            "lns_adopt", "lns_aaa", "lns_always", "lns_found"]
+VARIANTS = ["repaired", "def_restore"]
 RULE = ("ipcp/lcp/v6: ProcessConfReq called directly; every option list of length <= 2 (quick) / 3 (thorough) over a "
         "structured alphabet (implemented + unknown types, data lengths 0,1,2,3,4,5,6,8,9,253, values assigned / zero / "
         "local / near-miss / other) against every configuration class (assigned nil / 4-byte / 16-byte mapped / 0.0.0.0 / "
@@ -393,14 +392,41 @@ def gen_cases(rng, tier, budget):
                 start = aaa + "/none/" + rng.choice(["cf", "ok"])
             evs = [(e + rng.choice(["", "", "/none/cf", "/0a000008"])) if e[0] == "R" else e for e in evs]
         cases.append("sess %s %s" % (start, " ".join(evs)))
+        if i % 5 == 3 and aaa != "none" and aaa not in bad_aaas:
+            # the same history on a session restored from a checkpoint (installInMemoryState) with that address
+            cases.append("sess restore:%s %s" % (aaa[-8:], " ".join(e for e in evs)))
         if i % 2 == 0:
             # the same history against the LNS owner of the IPCP object (no reservation step there)
             cases.append("lns %s %s" % (start.replace("/cf", "/ok"), " ".join(e.replace("/cf", "/ok") for e in evs)))
+    # ---- IPv6CP inside a session: what the BNG announces in its Configure-Request vs what it compares with
+    ns6 = (budget or 300) if quick else (budget or 4000)
+    v6reqs = [[opt(1, "0200000000000001")], [opt(1, "00" * 8)], [opt(1, "505400fffe112233")], [], [opt(1, "0102")],
+              [opt(2, "0000"), opt(1, "0200000000000001")]]
+    for i in range(ns6):
+        mac = rng.choice(["525400112233", "525400112233", "020000000000", "02" + rhex(rng, 5)])
+        evs = []
+        for _ in range(rng.choice([1, 2, 3, 5, 8])):
+            r = rng.random()
+            if r < 0.3:
+                evs.append("e%d" % rng.randrange(256))
+            elif r < 0.55:
+                evs.append("q%d.%s" % (rng.randrange(256), wire(rng.choice(v6reqs))))
+            elif r < 0.75:
+                evs.append("k")
+            elif r < 0.85:
+                evs.append("n" + wire(rng.choice([[opt(1, "0200000000000009")], [opt(1, "00" * 8)], [opt(1, "0102")]])))
+            elif r < 0.92:
+                evs.append("j" + wire(rng.choice([[opt(1, "0200000000000009")], [opt(2, "00")]])))
+            else:
+                evs.append("R")
+        if i % 5 == 0:
+            evs = ["e1"] + evs           # the very first thing the subscriber does: loop our request back
+        cases.append("s6 %s %s" % (mac, " ".join(evs)))
     return cases
 
 
 def route(case):
-    return "sess" if case.startswith("sess") else ("lns" if case.startswith("lns") else "ppp")
+    return "sess" if case.startswith(("sess", "s6")) else ("lns" if case.startswith("lns") else "ppp")
 
 
 # ---------------------------------------------------------------- reading output lines
@@ -601,6 +627,27 @@ def _monitor(case, impl, out):
                     for t, d in os:
                         if t != 1 or len(d) != 16 or d == "00" * 8 or d == f[2]:
                             hit("IPv6CP Configure-Ack carries %d.%s" % (t, d))
+        elif f[0] == "s6":
+            parts = impl.split(" | ")
+            wire_id, clean = None, True   # identifier in the BNG's last Configure-Request; no learning since
+            for ev, p in zip(["start"] + f[2:], parts):
+                if ev[0] in "nR":
+                    clean = False
+                toks = p.split()
+                lid = [t for t in toks if t.startswith("lid=")][0][4:]
+                for t in toks:
+                    if t.startswith("sca:"):
+                        for ty, d in parse_opts(t.split(":", 2)[2]):
+                            if ty == 1 and (d == "00" * 8 or d == lid):
+                                hit("IPv6CP Configure-Ack carries %s (zero or the local identifier)" % d)
+                            if ty == 1 and clean and wire_id is not None and d == wire_id:
+                                hit("IPv6CP acknowledged identifier %s, which its own outstanding Configure-Request "
+                                    "announces" % d)
+                for t in toks:
+                    if t.startswith("scr:"):
+                        os_ = parse_opts(t.split(":", 1)[1])
+                        wire_id = os_[0][1] if os_ and os_[0][0] == 1 else None
+                        clean = True
         elif f[0] in ("sess", "lns"):
             parts = impl.split(" | ")
             seen_pa = set()
@@ -635,9 +682,7 @@ def _monitor(case, impl, out):
                                 if ty == 3 and "h" + d != pa:
                                     hit("Configure-Ack carries address %s while %s is assigned" % (d, pa))
 
-SIG_OF_CLASS = {"auth": "lcp-acks-chap-with-unsupported-algorithm",
-                "adopt": "ipcp-up-without-address-option-adopts-nil",
-                "aaa": "aaa-unusable-ipv4-leaves-ipcp-unassigned"}
+SIG_RESTORE = "restored-session-ipcp-has-nothing-assigned"
 
 
 def _recorded():
@@ -657,20 +702,13 @@ def _recorded():
 
 
 def classify(case, impl, model):
-    """P: the implementation's output violates the property in a way that is not one of the recorded
-    findings (a case that matches a recorded finding exactly never gets here: vlib reports it as
-    KNOWN-FINDING).  A case that shows nothing but a recorded finding and differs elsewhere is glue."""
+    """P: the implementation's output violates the property (a case that matches a recorded finding exactly
+    never gets here: vlib reports it as KNOWN-FINDING).  A restored-session case that shows nothing but the
+    recorded restore finding and differs elsewhere is glue."""
     vs = monitor_all(case, impl)
-    rec = _recorded()
-    lns = case.startswith("lns")
-
-    def recorded(c):
-        if not lns:
-            return SIG_OF_CLASS[c] in rec
-        if c == "adopt":
-            return "lns-ipcp-up-adopts-nil-peer-address" in rec
-        return "lns-aaa-unusable-ipv4-kept" in rec or "lns-ipcp-started-without-assigned-address" in rec
-    fresh = [t for t, c in vs if c is None or not recorded(c)]
+    f = case.split()
+    restore_known = f[0] == "sess" and f[1].startswith("restore:") and SIG_RESTORE in _recorded()
+    fresh = [t for t, c in vs if not (restore_known and c is not None)]
     if fresh:
         return "P", fresh[0] + " (impl=%r model=%r)" % (impl[:200], model[:200])
     extra = (" [also shows recorded finding: %s]" % vs[0][0]) if vs else ""
@@ -679,29 +717,8 @@ def classify(case, impl, model):
 
 def signature(case, impl, models):
     f = case.split()
-    if impl == models.get("def_auth") and (f[0] == "lcp" or (f[0] == "fsm" and f[1] == "l")):
-        return "lcp-acks-chap-with-unsupported-algorithm"
-    if f[0] == "hi" and impl == models.get("def_adopt"):
-        return "ipcp-up-without-address-option-adopts-nil"
-    if f[0] == "hl" and impl == models.get("def_auth"):
-        return "lcp-acks-chap-with-unsupported-algorithm"
-    if f[0] == "lns":
-        if impl == models.get("lns_adopt"):
-            return "lns-ipcp-up-adopts-nil-peer-address"
-        if impl == models.get("lns_aaa"):
-            return "lns-aaa-unusable-ipv4-kept"
-        if impl == models.get("lns_always"):
-            return "lns-ipcp-started-without-assigned-address"
-        if impl == models.get("lns_found"):
-            return "lns-ipcp-combined"
-        return None
-    if f[0] == "sess":
-        if impl == models.get("def_adopt"):
-            return "ipcp-up-without-address-option-adopts-nil"
-        if impl == models.get("def_aaa"):
-            return "aaa-unusable-ipv4-leaves-ipcp-unassigned"
-        if impl == models.get("defective"):
-            return "aaa-unusable-ipv4-leaves-ipcp-unassigned+adopts-nil"
+    if f[0] == "sess" and f[1].startswith("restore:") and impl == models.get("def_restore"):
+        return "restored-session-ipcp-has-nothing-assigned"
     return None
 
 
@@ -713,6 +730,8 @@ def nontrivial(case, out):
         return "A=" in out and len(case.split()) > (5 if k == "hi" else 3)
     if k == "fsm":
         return not out.startswith("- ;")
+    if k == "s6":
+        return "sca:" in out or "scn:" in out
     return "up=1" in out
 
 
@@ -758,7 +777,7 @@ def shrink(case):
             if len(b) <= 24:
                 for i in range(len(b)):
                     yield " ".join(f[:-1] + ["".join(b[:i] + b[i + 1:]) or "-"])
-    elif k in ("sess", "lns"):
+    elif k in ("sess", "lns", "s6"):
         evs = f[2:]
         for i in range(len(evs)):
             if len(evs) > 1:
@@ -766,7 +785,7 @@ def shrink(case):
 
 
 def distribution(cases, impl):
-    d = {"ipcp": 0, "lcp": 0, "v6": 0, "hi": 0, "hl": 0, "h6": 0, "history_ops": 0, "sess_reauth": 0, "fsm": 0, "sess": 0, "lns": 0, "sess_alloc": 0, "sess_conflict": 0, "options_classified": 0, "acked": 0, "nakked": 0,
+    d = {"ipcp": 0, "lcp": 0, "v6": 0, "hi": 0, "hl": 0, "h6": 0, "history_ops": 0, "sess_reauth": 0, "fsm": 0, "sess": 0, "lns": 0, "s6": 0, "s6_echo": 0, "sess_alloc": 0, "sess_conflict": 0, "options_classified": 0, "acked": 0, "nakked": 0,
          "rejected": 0, "fsm_sca": 0, "fsm_scn": 0, "fsm_scj": 0, "fsm_silent": 0, "sess_opened": 0,
          "max_options_in_request": 0, "panic_or_hang": 0}
     for c, o in zip(cases, impl):
@@ -787,6 +806,8 @@ def distribution(cases, impl):
                     d["max_options_in_request"] = max(d["max_options_in_request"], len(a) + len(n) + len(r))
             except Exception:
                 pass
+        elif k == "s6":
+            d["s6_echo"] += " e" in c
         elif k in ("hi", "hl", "h6"):
             d["history_ops"] += len(c.split()) - (4 if k == "hi" else 2)
         elif k == "fsm":
